@@ -15,6 +15,7 @@ RULE = ("Arbitrary trees with every field populated and namespace dictionaries s
         "distinct, registered and resolving to the copied node; parent links inside the copy; no dict / list object "
         "shared; after the edit the other tree's snapshot is unchanged.  Non-trivial: trees of depth >= 2 with a "
         "namespace map shared between nodes; distinct (tree, copy point, edit) by hash.")
+RULE += ('  Every case starts with a copy() that fails (a child list holding a non-node): later copies must be unaffected.')
 ASSUMPTIONS = [
     "the copy root's own parent link is unspecified and not checked",
     "attribute / extras values are immutable strings, so sharing values is not sharing state",
